@@ -22,7 +22,7 @@ def stop_case(draw):
   return {"sources": sources, "stop_from": draw(st.sampled_from(["outside", "outside", "handler", "other_handler"])),
           "stop_at": stop_at, "timed_schedule": timed,
           "posts_before": draw(st.integers(0, 3)), "posts_with_stop": draw(st.integers(0, 2)),
-          "slow_step": draw(st.sampled_from([0.0, 0.0, 0.3, 1.0])),
+          "slow_step": draw(st.sampled_from([0.0, 0.0, 0.3, 1.0, 1.5, 3.0, 12.0])),
           "slow_arms": draw(st.booleans()),     # the slow handler ends by arming a timed source
           "crash": draw(st.integers(0, 4)) == 0,  # a handler raises: the thread is gone before stop() is called
           "same_name": draw(st.integers(0, 3)) == 0,  # the other object carries the same name
@@ -42,7 +42,7 @@ class C12(Prop):
           "with 0-3 timed sources (periods 0.25-1.0, endless or 4 shots, over three signal names), a second ActiveObject "
           "subscribed to a signal, plain posts queued before the stop, optionally live spy/trace output switched on for the object that is stopped, optionally a handler that raises (so the "
           "object's thread has already ended when stop() is called from outside), optionally a handler "
-          "that takes 0.3-1.0 s of virtual time and is running when stop() is called; stop() is called at a "
+          "that takes 0.3-12 s of virtual time and is running when stop() is called; stop() is called at a "
           "generated virtual instant (a multiple of 0.25, so it often coincides with a timer firing "
           "or falls inside a step) either from the body thread or from one of the object's own "
           "handlers, under generated schedules. Oracle: after stop() returned to an outside caller "
@@ -142,7 +142,7 @@ class C12(Prop):
         chart.post_fifo(Event(signal=signals["VSTOP"], payload=0))
       for j in range(case["posts_with_stop"]):
         chart.post_fifo(Event(signal=signals["VA"], payload=200 + j))
-      s.sleep_until(t0 + case["stop_at"] + 3.0)
+      s.sleep_until(t0 + case["stop_at"] + 3.0 + (case.get("slow_step") or 0.0))
       info["alive_end"] = chart.thread.is_alive()
       # the rest of the system keeps working
       other.post_fifo(Event(signal=signals["VA"], payload=777))
